@@ -197,6 +197,8 @@ def oracle_invariance(ck, tier, deep):
                 # masked bad pixels are typically NaN / inf in the data
                 "zero-weight-pixels-nonfinite": run(np.where(zero, [np.nan, np.inf, -np.inf][it % 3], im), wt, (row, col)),
                 "origin-negative": run(im, wt, (row - h, col - w)),
+                # coordinates computed with NumPy (np.unravel_index, np.argmax, an integer array) are the same position
+                "origin-numpy-integers": run(im, wt, [(np.int64(row), np.int64(col)), (np.intp(row), col), (row, np.int32(col)), np.array([row, col])][it % 4]),
                 "larger-rmax": run(im, wt, (row, col), rmax + 3)[:, :rmax + 1],
             }
             # the weights' dtype is not part of the request: a bool mask / uint8 weights mean their float values
